@@ -1,3 +1,5 @@
+import Secp.Proofs.DriversBrute
+import Secp.Proofs.DriversVerify
 import Secp.Proofs.DriversMisc
 import Secp.Proofs.DriversFront
 import Secp.Proofs.Ecdsa
@@ -77,5 +79,39 @@ theorem export_regenerated (r s v : Nat) (hr : r < 2 ^ 256) : Secp.Gen.Drivers.e
 theorem exportCompact_regenerated (r s v off : Nat) (first : Bool) :
     Secp.Gen.Drivers.exportCompact (r, s, v) first off = exportCompactM r s v first off :=
   Secp.Proofs.DriversMisc.exportCompact_regenerated r s v off first
+
+
+/-- `RecoverCompact` regenerated: the parser followed by `RecoverPublicKey`, flag passed through -/
+theorem recoverCompact_front (sig h : Bytes) :
+    Secp.Gen.Drivers.recoverCompact sig h =
+      (match parseCompactM sig with
+       | .error (e, _) => DR.err e
+       | .ok (r, s, c, comp) =>
+         match Secp.Gen.Drivers.recoverPublicKey (r, s, c) h with
+         | .ok pk => DR.ok (pk, comp)
+         | .err e => DR.err e | .panic => DR.panic | .fuel => DR.fuel | .undef => DR.undef) :=
+  Secp.Proofs.DriversFront.recoverCompact_front sig h
+
+
+/-- `Signature.RecoverPublicKey` (signature.go) regenerated — the panic on a missing code, the overflow-bit branch with
+    its r < P−N guard, `DecompressY`, the two scalar multiplications, the infinity check — = `recoverM`, for every
+    r < N, s, code and hash -/
+theorem recoverPublicKey_regenerated (r s v : Nat) (h : Bytes) (hr : r < N) :
+    Secp.Gen.Drivers.recoverPublicKey (r, s, v) h =
+      (match recoverM h r s v with
+       | .ok p => DR.ok p
+       | .error .Panic => DR.panic
+       | .error .ErrSigOverflowsPrime => DR.err SigErr.ErrSigOverflowsPrime
+       | .error .ErrPointNotOnCurve => DR.err SigErr.ErrPointNotOnCurve) :=
+  Secp.Proofs.DriversVerify.recoverPublicKey_regenerated r s v h hr
+
+/-- `Signature.BruteforceRecoveryCode` regenerated: it always terminates normally, finds the FIRST code 0..3 whose
+    recovery yields the key (overflow codes included), leaves that code — or 0xff — in the object, and does not depend
+    on the code the object held before -/
+theorem bruteforce_regenerated (r s v : Nat) (h : Bytes) (Q : Nat × Nat) (hr : r < N) :
+    Secp.Gen.Drivers.bruteforceRecoveryCode (r, s, v) h Q =
+      DR.ok ((bruteforceM h r s Q).1, (r, s, (bruteforceM h r s Q).2)) :=
+  Secp.Proofs.DriversBrute.bruteforce_regenerated
+    (fun r s v h hr => Secp.Proofs.DriversVerify.recoverPublicKey_regenerated r s v h hr) r s v h Q hr
 
 end Secp.Props.C07
